@@ -696,8 +696,12 @@ static void restore_jmpbuf_rstack(struct mcount_thread_data *mtdp, unsigned long
 
 	pr_dbg2("restore jmpbuf rstack at %lx (%d entries)\n", addr, jbstack->count);
 
-	/* the calls above the setjmp() are abandoned */
-	for (i = jbstack->count; i < mtdp->idx; i++)
+	/*
+	 * The calls made after setjmp() returned are abandoned.  The saved
+	 * count includes the setjmp() entry itself, which was popped when it
+	 * returned: the first call made after it took that slot.
+	 */
+	for (i = jbstack->count > 0 ? jbstack->count - 1 : 0; i < mtdp->idx; i++)
 		mcount_plthook_rearm(mtdp, &mtdp->rstack[i]);
 
 	mtdp->idx = jbstack->count;
